@@ -57,25 +57,27 @@ TASK_TIMEOUT = 600.0
 
 # --------------------------------------------------------------------------- alphabets (VERIF_SEED picks one)
 _SEED = int(os.environ.get('VERIF_SEED', '0') or 0)
-_K = _SEED % 4
+_K = _SEED if 0 <= _SEED < 4 else 4      # five value alphabets; seeds >= 4 use the fifth
 RID = [10, 20, 30, 40, 50]                                   # row tag column 'r' (original row id)
 XS = [[1.5, -2.0, 0.0, 4.0, 2.5],
       [0.25, 3.0, -1.5, 0.0, 8.0],
       [-0.5, 0.0, 2.0, 6.5, 1.25],
-      [4.0, 0.5, -3.0, 2.25, 0.0]][_K]
+      [4.0, 0.5, -3.0, 2.25, 0.0],
+      [-1.0, 5.0, 0.0, 0.75, 3.5]][_K]
 CS = [[0, 1, 2, 1, 0],
       [1, 0, 1, 2, 2],
       [2, 1, 0, 0, 1],
-      [1, 2, 0, 1, 1]][_K]
-IDS_SORTED = [[1, 1, 2, 3, 3], [2, 2, 5, 7, 7], [1, 1, 4, 6, 6], [4, 4, 6, 9, 9]][_K]
-IDS_UNSORTED = [[3, 3, 1, 2, 2], [7, 7, 2, 5, 5], [4, 4, 6, 1, 1], [9, 9, 4, 6, 6]][_K]
+      [1, 2, 0, 1, 1],
+      [0, 0, 1, 2, 1]][_K]
+IDS_SORTED = [[1, 1, 2, 3, 3], [2, 2, 5, 7, 7], [1, 1, 4, 6, 6], [4, 4, 6, 9, 9], [10, 10, 11, 12, 12]][_K]
+IDS_UNSORTED = [[3, 3, 1, 2, 2], [7, 7, 2, 5, 5], [4, 4, 6, 1, 1], [9, 9, 4, 6, 6], [12, 12, 10, 11, 11]][_K]
 COLS = ['x', 'id', 'r', 'c']                                 # order differs from alphabetical order
 TABLES = {
     'A': dict(ids=IDS_SORTED, index=None),                   # RangeIndex
     'B': dict(ids=IDS_UNSORTED, index=[4, 2, 0, 3, 1]),      # label != position, ids contiguous but not sorted
     'C': dict(ids=IDS_SORTED, index=[0, 1, 2, 0, 1]),        # duplicate labels (two concatenated parts)
 }
-XTHR = [1.0, 0.2, 1.0, 0.4][_K]
+XTHR = [1.0, 0.2, 1.0, 0.4, 0.5][_K]
 
 
 def V(n):
@@ -504,22 +506,25 @@ def compare_state(s, db, ref: RefTable):
     if s['cols'] != ref.cols:
         bad.append(('columns', f'columns are {s["cols"]}, the reference implies {ref.cols}'))
         return bad
-    bad += compare_rows(s['cols'], s['rows'], ref, [rid for rid, _ in ref.rows], 'table')
+    rows_bad = compare_rows(s['cols'], s['rows'], ref, [rid for rid, _ in ref.rows], 'table')
+    bad += rows_bad
     if s['excluded'] != ref.excluded:
         bad.append(('excluded-count', f'excludedData is {s["excluded"]}, the last remove deleted {ref.excluded} rows'))
     if (s['panel'] is not None) != (ref.panel is not None) or (ref.panel and s['panel'] != ref.panel):
         bad.append(('panel-flag', f'panelColumn is {s["panel"]!r}, the reference implies {ref.panel!r}'))
     want = ref.imap()
-    if s['imap'] != want and not (want is None and s['imap'] is None):
+    map_bad = s['imap'] != want and not (want is None and s['imap'] is None)
+    if map_bad and not rows_bad:
         bad.append(('individual-map', f'individualMap is {s["imap"]}, the rows of the table imply {want}'))
     try:
         nobs, ssize = int(db.get_number_of_observations()), int(db.get_sample_size())
     except Exception as e:  # noqa: BLE001
         bad.append(('size-query-raised', f'{type(e).__name__}: {e}'))
     else:
-        if nobs != len(ref.rows):
+        # consequences of a wrong table / a wrong map are not reported a second time
+        if nobs != len(ref.rows) and not rows_bad:
             bad.append(('number-of-observations', f'get_number_of_observations()={nobs}, table has {len(ref.rows)} rows'))
-        if ssize != ref.sample_size():
+        if ssize != ref.sample_size() and not rows_bad and not map_bad:
             bad.append(('sample-size', f'get_sample_size()={ssize}, the reference implies {ref.sample_size()}'))
     if db.is_panel() != (ref.panel is not None):
         bad.append(('panel-flag', f'is_panel()={db.is_panel()}'))
@@ -892,21 +897,79 @@ def op_label(op):
     return op[0] if op[0] not in ('flat', 'split') else (op[0] + ('-grouped' if op[0] == 'split' and op[2] else ''))
 
 
-def report(rec, problems, op, root, history, flags, observer):
+def _valid_history(table, hist):
+    ref = RefTable(table)
+    for op in hist:
+        if len(ref.rows) == 0 or op not in mutators(ref, 'thorough'):
+            return False
+        ref.apply(op)
+    return len(ref.rows) > 0
+
+
+def reproduces(root, hist, op, observer, answer, clause, rec):
+    """Does `op` (with `answer`) still fail with `clause` after the (shorter) history `hist`?"""
+    table, tier = root['table'], root['tier']
+    if not _valid_history(table, hist):
+        return False
+    scratch = Rec()
+    try:
+        R = replay_history(table, hist)
+    except RuntimeError:
+        return False
+    try:
+        if observer:
+            if op not in observers(R.ref, tier):
+                return False
+            probs = run_observer(R, op, tier, scratch, dict(root=table, hist='', depth=len(hist)), only_answer=answer)
+        else:
+            if op not in mutators(R.ref, 'thorough'):
+                return False
+            probs, _ = step_and_compare(R, op, scratch)
+    finally:
+        rec.retire = rec.retire or scratch.retire
+    return any(p[0] == clause for p in probs)
+
+
+def shrink_history(root, history, op, observer, answer, clause, rec):
+    """Greedy one-at-a-time removal of operations from the history while the same clause still fails
+    (used for the deep chains only; BFS witnesses are already shortest)."""
+    h = [list(e) for e in history]
+    i = 0
+    while i < len(h):
+        cand = h[:i] + h[i + 1:]
+        if reproduces(root, cand, op, observer, answer, clause, rec):
+            h = cand
+        else:
+            i += 1
+    return h
+
+
+def report(rec, problems, op, root, history, flags, observer, shrink=False):
+    cache = rec.__dict__.setdefault('_shrunk', {})
     for p in problems:
         clause, detail = p[0], p[1]
         answer = p[2] if len(p) > 2 else None
+        if shrink and history:
+            ck = (clause, op_label(op), flags)
+            if ck not in cache:
+                h = shrink_history(root, history, op, observer, answer, clause, rec)
+                cache[ck] = (h, flags_of(replay_history(root['table'], h, check=False).snap))
+                history_, flags_ = cache[ck]
+            else:
+                history_, flags_ = history, cache[ck][1]
+        else:
+            history_, flags_ = history, flags
         # failures tied to the form of an argument do not depend on the state: one key
         key = (f'C13|{clause}|op={op_label(op)}' if clause.endswith('-argument')
-               else f'C13|{clause}|op={op_label(op)};state={flags}')
-        case = dict(root=root, history=history, op=op, observer=observer, answer=answer)
-        rec.violation(key, f'{clause}: after history {history} on table {root["table"]}, {op}'
-                           f'{"" if answer is None else " with random answer " + str(answer)}: {detail}',
+               else f'C13|{clause}|op={op_label(op)};state={flags_}')
+        case = dict(root=root, history=history_, op=op, observer=observer, answer=answer)
+        rec.violation(key, f'{clause}: after history {history_} on table {root["table"]}, {op}'
+                           f'{"" if answer is None else " with answer/argument " + str(answer)}: {detail}',
                       case, observed=detail)
 
 
 # --------------------------------------------------------------------------- expansion of one state
-def expand(root, history, rec: Rec, do_observers=True, do_mutators=True):
+def expand(root, history, rec: Rec, do_observers=True, do_mutators=True, shrink=False):
     table, tier = root['table'], root['tier']
     R = replay_history(table, history)
     flags = flags_of(R.snap)
@@ -916,7 +979,7 @@ def expand(root, history, rec: Rec, do_observers=True, do_mutators=True):
     if do_observers:
         for op in observers(R.ref, tier):
             problems = run_observer(R, op, tier, rec, ctx)
-            report(rec, problems, op, root, history, flags, True)
+            report(rec, problems, op, root, history, flags, True, shrink=shrink)
             # an observing operation must leave the state unchanged
             try:
                 s1 = snap(R.db)
@@ -1054,11 +1117,11 @@ def _run_chain(task, rec):
         if s2 is not None:
             rec.states.add(short_hash(repr((json.dumps(root, sort_keys=True), canon_of(s2))), 16))
         if problems:
-            report(rec, problems, op, root, hist, flags, False)
+            report(rec, problems, op, root, hist, flags, False, shrink=True)
             return
         if tier == 'thorough' or i == len(chain) - 1:
             if len(R.ref.rows) > 0:
-                expand(root, chain[:i + 1], rec, do_observers=True, do_mutators=False)
+                expand(root, chain[:i + 1], rec, do_observers=True, do_mutators=False, shrink=True)
 
 
 # --------------------------------------------------------------------------- replay of one case
